@@ -80,6 +80,137 @@ def copyIntoDoc (ctx : Option (Nat × Str)) (dst : Doc) (next : Nat) (n : INode)
     let f := newFams nx adds
     some ⟨c, dst ++ f.1, f.2, w, adds⟩
 
+/-! ### documents as state, sequences of copies (round 4)
+
+  `DocSt` is the part of a `*Document` that `DeepCopy` / `Filter` can touch: the record list
+  (`doc.nodes`), the pointer index (`pointerCache`, a map: modelled by the log of `Store` calls,
+  newest first) and the families cache (`doc.families`; `nil` = `none`).  `AddFamily` appends a new
+  empty FAM record (`AddNode`: append, `Store` under a non-empty pointer, families cache cleared for
+  a FAM) and then calls `doc.Families()`, which refills the cache.  A `World` is a list of documents
+  and the allocation counter; `World.step` is one `DeepCopy(node, dst)` for an object of one of the
+  documents; `World.run` a sequence of them. -/
+
+structure DocSt where
+  nodes : List INode
+  index : List (Str × Nat)
+  famCache : Option (List Nat)
+deriving Repr
+
+/-- what `Families()` computes when the cache is empty: the FAM records, in order -/
+def famIds (recs : List INode) : List Nat := (recs.filter fun r => r.tag == tagFAM).map (·.id)
+
+/-- a decoded document: `buildPointerCache` stores every record with a non-empty pointer -/
+def DocSt.ofRecords (recs : List INode) : DocSt :=
+  ⟨recs, ((recs.filter fun r => !r.ptr.isEmpty).map fun r => (r.ptr, r.id)).reverse, none⟩
+
+/-- `NodeByPointer(p)` -/
+def DocSt.nodeByPointer (d : DocSt) (p : Str) : Option Nat :=
+  (d.index.find? fun e => e.1 == p).map (·.2)
+
+/-- `Families()` (its result; the cache is filled as a side effect, see `addFamily`) -/
+def DocSt.families (d : DocSt) : List Nat :=
+  match d.famCache with
+  | some l => l
+  | none => famIds d.nodes
+
+/-- `doc.AddNode(n)` -/
+def DocSt.addNode (d : DocSt) (n : INode) : DocSt :=
+  ⟨d.nodes ++ [n], if n.ptr.isEmpty then d.index else (n.ptr, n.id) :: d.index,
+    if n.tag == tagFAM then none else d.famCache⟩
+
+/-- `doc.AddFamily(p)`, the new record being object `id` -/
+def DocSt.addFamily (d : DocSt) (id : Nat) (p : Str) : DocSt :=
+  let d' := d.addNode (.mk id tagFAM [] p [])
+  { d' with famCache := some d'.families }
+
+/-- the `AddFamily` calls of one walk -/
+def DocSt.addFamilies (d : DocSt) (next : Nat) : List Str → DocSt × Nat
+  | [] => (d, next)
+  | p :: ps => (d.addFamily next p).addFamilies (next + 1) ps
+
+/-- cache coherence of a document state -/
+def DocSt.coherent (d : DocSt) : Prop :=
+  (∀ p : Str, p ≠ [] → d.nodeByPointer p = Doc.lookup d.nodes p) ∧
+  (∀ l, d.famCache = some l → l = famIds d.nodes)
+
+mutual
+/-- the subtree whose root is object `k` -/
+def INode.find (k : Nat) : INode → Option INode
+  | .mk i t v p ks => if i == k then some (.mk i t v p ks) else findList k ks
+def findList (k : Nat) : List INode → Option INode
+  | [] => none
+  | n :: ns => match n.find k with | some x => some x | none => findList k ns
+end
+
+/-- the record that contains object `k`, and the subtree at `k` -/
+def findRec (k : Nat) : List INode → Option (INode × INode)
+  | [] => none
+  | r :: rs => match r.find k with | some x => some (r, x) | none => findRec k rs
+
+structure World where
+  docs : List DocSt
+  next : Nat
+deriving Repr
+
+/-- `DeepCopy(object node of document src, document dst)` -/
+structure CopyOp where
+  src : Nat
+  node : Nat
+  dst : Nat
+deriving Repr
+
+/-- the family a role node that is not below a FAM node of the copied tree belongs to: the FAM
+    record it lives in (the decoder builds role nodes only inside FAM records) -/
+def ctxOf (r : INode) : Option (Nat × Str) := if r.tag == tagFAM then some (r.id, r.ptr) else none
+
+/-- the object each role node of the copy belongs to (`Family()`), in walk order: the counterpart
+    in the destination of its source family — the new FAM records are numbered `nx, nx+1, …` in
+    the order in which their source families are first met -/
+def roleFamilies (ctx : Option (Nat × Str)) (nx : Nat) (t : INode) : List Nat :=
+  let used := (famsUsed ctx t).2
+  let firsts := (firstNew [] used).1.reverse
+  used.map fun f => nx + firsts.idxOf f.1
+
+mutual
+/-- the nodes of a copy that carry a document (`Document()`): INDI and FAM nodes -/
+def docBearing : INode → List Nat
+  | .mk i t _ _ ks => (if t == tagFAM || t == lit "INDI" then [i] else []) ++ docBearingList ks
+def docBearingList : List INode → List Nat
+  | [] => []
+  | k :: ks => docBearing k ++ docBearingList ks
+end
+
+structure CopyEvent where
+  op : CopyOp
+  source : INode
+  ctx : Option (Nat × Str)
+  start : Nat
+  result : CopyDocResult
+deriving Repr
+
+/-- one copy.  `none`: the operation is not one (no such document / object) or the walk panics
+    (unreachable for objects of documents: `copy_total`); the world is then unchanged. -/
+def World.step (w : World) (op : CopyOp) : World × Option CopyEvent :=
+  match w.docs[op.src]?, w.docs[op.dst]? with
+  | some s, some d =>
+    match findRec op.node s.nodes with
+    | none => (w, none)
+    | some (r, t) =>
+      match deepCopyIn (ctxOf r) w.next t with
+      | .panic => (w, none)
+      | .ok c nx wr adds =>
+        let d' := d.addFamilies nx adds
+        (⟨w.docs.set op.dst d'.1, d'.2⟩, some ⟨op, t, ctxOf r, w.next, ⟨c, d'.1.nodes, d'.2, wr, adds⟩⟩)
+  | _, _ => (w, none)
+
+/-- a sequence of copies: the final world and what each operation returned -/
+def World.run (w : World) : List CopyOp → World × List (Option CopyEvent)
+  | [] => (w, [])
+  | op :: ops =>
+    let a := w.step op
+    let b := a.1.run ops
+    (b.1, a.2 :: b.2)
+
 /-! ### nil -/
 
 /-- `DeepEqual(a, b)` where either may be nil (untyped or typed nil): false unless both are nodes -/
